@@ -124,8 +124,12 @@ func VerifC12_NewThenUse() {
 		vnd.Assert(rerr == nil && !at.Before(ct.StartOfEpoch(ct.CurrentEpoch()+1)), "C12.new.periodic-job-next-run-in-the-future")
 		vnd.Assert(at.Before(ct.StartOfEpoch(ct.CurrentEpoch()+2)), "C12.new.periodic-job-next-run-within-the-next-epoch")
 		m.outcome, a.mode = docValid, 0
+		askedBefore := len(a.asked)
 		j.Fn(context.Background())
 		vnd.Assert(vnd.Quiesce() == 0 && vnd.HeldLocks() == 0, "C12.new.periodic-job-returns")
+		// whatever the round at start-up met (no accounts, an account manager in trouble, no
+		// configuration), a later round is a round: it goes to the account manager again
+		vnd.Assert(len(a.asked) > askedBefore, "C12.new.a-later-round-is-not-skipped-because-of-how-an-earlier-one-ended")
 	}
 	pc, perr = s.ProposerConfig(context.Background(), nil, phase0.BLSPubKey{7})
 	vnd.Assert(perr == nil && pc.FeeRecipient[0] == 0x11, "C12.new.later-refresh-goes-through")
